@@ -6,6 +6,8 @@ import (
 	"encoding/json"
 	"flag"
 	"fmt"
+	"go/ast"
+	"go/printer"
 	"go/types"
 	"os"
 	"os/exec"
@@ -22,23 +24,24 @@ import (
 )
 
 var (
-	flagProp       = flag.String("prop", "", "property id (C01..C20), comma separated, or 'all'")
-	flagTier       = flag.String("tier", "quick", "quick|thorough")
-	flagRepo       = flag.String("repo", "/repo", "repository root")
-	flagVerif      = flag.String("verif", "/verif", "verif root (evidence, reports, known findings)")
-	flagWorker     = flag.Bool("worker", false, "internal: run one configuration and print JSON")
-	flagConfig     = flag.String("config", "", "internal: configuration GOOS/GOARCH/tags")
-	flagMutant     = flag.String("mutant", "", "internal: mutant id to overlay")
-	flagOut        = flag.String("out", "", "internal: worker output file")
-	flagReplay     = flag.String("replay", "", "re-decide the obligation recorded in a report file")
-	flagVerbose    = flag.Bool("v", false, "print every obligation")
-	flagNoMut      = flag.Bool("nomutants", false, "skip overlay mutants")
-	flagList       = flag.Bool("list", false, "list rules")
-	flagSurvey     = flag.String("survey", "", "development aid: run every mutant of an automut file against all rules and report survivors")
-	flagMutFile    = flag.String("mutfile", "", "internal: automut file the -mutant id refers to")
-	flagDumpFuncs  = flag.Bool("dumpfuncs", false, "development aid: print the function keys of the module over the whole configuration matrix (source of core/baseline_funcs.txt)")
-	flagDumpFields = flag.Bool("dumpfields", false, "with -dumpfuncs: print the struct fields instead (source of core/baseline_fields.txt)")
-	flagJobs       = flag.Int("jobs", 12, "parallel workers for -survey")
+	flagProp        = flag.String("prop", "", "property id (C01..C20), comma separated, or 'all'")
+	flagTier        = flag.String("tier", "quick", "quick|thorough")
+	flagRepo        = flag.String("repo", "/repo", "repository root")
+	flagVerif       = flag.String("verif", "/verif", "verif root (evidence, reports, known findings)")
+	flagWorker      = flag.Bool("worker", false, "internal: run one configuration and print JSON")
+	flagConfig      = flag.String("config", "", "internal: configuration GOOS/GOARCH/tags")
+	flagMutant      = flag.String("mutant", "", "internal: mutant id to overlay")
+	flagOut         = flag.String("out", "", "internal: worker output file")
+	flagReplay      = flag.String("replay", "", "re-decide the obligation recorded in a report file")
+	flagVerbose     = flag.Bool("v", false, "print every obligation")
+	flagNoMut       = flag.Bool("nomutants", false, "skip overlay mutants")
+	flagList        = flag.Bool("list", false, "list rules")
+	flagSurvey      = flag.String("survey", "", "development aid: run every mutant of an automut file against all rules and report survivors")
+	flagMutFile     = flag.String("mutfile", "", "internal: automut file the -mutant id refers to")
+	flagDumpFuncs   = flag.Bool("dumpfuncs", false, "development aid: print the function keys of the module over the whole configuration matrix (source of core/baseline_funcs.txt)")
+	flagDumpHelpers = flag.Bool("dumphelpers", false, "with -dumpfuncs: print the source of the small unexported functions (source of core/baseline_helpers.txt)")
+	flagDumpFields  = flag.Bool("dumpfields", false, "with -dumpfuncs: print the struct fields instead (source of core/baseline_fields.txt)")
+	flagJobs        = flag.Int("jobs", 12, "parallel workers for -survey")
 )
 
 // Mutant is a textual exact-once replacement applied through the loader overlay.
@@ -778,6 +781,51 @@ func dumpFuncs() int {
 			fmt.Fprintln(os.Stderr, err)
 			return 3
 		}
+		if *flagDumpHelpers {
+			for _, pk := range p.Pkgs {
+				for id, obj := range pk.TypesInfo.Defs {
+					fn, ok := obj.(*types.Func)
+					if !ok || fn.Exported() || fn.Name() == "init" || fn.Name() == "main" {
+						continue
+					}
+					d := p.RawDecl(fn)
+					if d == nil || d.Body == nil || d.Name != id || d.Type.TypeParams != nil {
+						continue
+					}
+					lines := p.Fset.Position(d.End()).Line - p.Fset.Position(d.Pos()).Line
+					if lines > 30 {
+						continue
+					}
+					k := core.FuncKey(fn)
+					if _, done := sig[k]; done {
+						continue
+					}
+					var b strings.Builder
+					b.WriteString("#pkg " + pk.PkgPath + " " + pk.Types.Name() + "\n")
+					imps := map[string]bool{}
+					ast.Inspect(d, func(n ast.Node) bool {
+						if x, ok := n.(*ast.Ident); ok {
+							if pn, ok := pk.TypesInfo.Uses[x].(*types.PkgName); ok {
+								imps[pn.Name()+" \""+pn.Imported().Path()+"\""] = true
+							}
+						}
+						return true
+					})
+					for _, im := range sortedKeys(imps) {
+						b.WriteString("#import " + im + "\n")
+					}
+					doc := d.Doc
+					d.Doc = nil
+					if err := printer.Fprint(&b, p.Fset, d); err != nil {
+						d.Doc = doc
+						continue
+					}
+					d.Doc = doc
+					sig[k] = b.String()
+				}
+			}
+			continue
+		}
 		for _, pk := range p.Pkgs {
 			if *flagDumpFields {
 				sc := pk.Types.Scope()
@@ -817,6 +865,10 @@ func dumpFuncs() int {
 		cs := map[string]bool{}
 		for _, c := range cfgs[k] {
 			cs[c] = true
+		}
+		if *flagDumpHelpers {
+			fmt.Printf("=== %s\n%s\n", k, sig[k])
+			continue
 		}
 		fmt.Printf("%s\t%s\t%s\n", k, sig[k], strings.Join(sortedKeys(cs), ";"))
 	}
